@@ -42,7 +42,7 @@ def _small_cases(N):
                 'n': n, 'nch': 3, 'dtype': (S.SAMPLE_DTYPES + S.BIG_ENDIAN_DTYPES)[k % 7],
                 'backend': 'flat',
                 'parts': parts, 'offset': OFFSETS[(k // 5) % 4], 'chunk': 1 + k % (n + 2),
-                'salt': k % 7, 'ext': ['.dat', '.bin', '.raw'][k % 3],
+                'salt': k % 7, 'ext': ['.dat', '.bin', '.raw', 'mixed'][k % 4],
                 'names': ['asc', 'desc', 'num'][(k // 3) % 3]}}
         for backend in ('array', 'npy', 'cbin'):
             k += 1
@@ -104,9 +104,54 @@ def _large_cases(th):
                 [{'t': 'slice', 'a': -(2 ** 16 + 9), 'b': None}, None]]}
 
 
+def _huge_cases(th):
+    # recordings of more than 2**31 (thorough: 2**32) samples - 20 h at 30 kHz - as sparse files
+    for i, n in enumerate([2 ** 31 + 40] + ([2 ** 32 + 40] if th else [])):
+        yield {'mode': 'huge', 'n': n, 'salt': i}
+
+
+def _check_huge(case):
+    from phylib.io.traces import get_ephys_reader
+    from .. import rec
+    n = case['n']
+    with env.scratch() as d:
+        R = rec.SparseRecording(d, n, nch=2, dtype='int16', block=64, salt=case['salt'])
+        r = must_return('get_ephys_reader', get_ephys_reader, R.path, n_channels=2,
+                        dtype=np.int16, sample_rate=30000.)
+        try:
+            require(tuple(r.shape) == (n, 2) and int(r.n_samples) == n, 'shape of a recording '
+                    'of more than 2**31 samples', key='meta-shape', observed=r.shape,
+                    expected=(n, 2))
+            b = n - 64          # first row of the written tail (= 2**31 - 24 or 2**32 - 24)
+            for what, idx, rows in (
+                    ('reader[n - 1]', n - 1, [n - 1]), ('reader[-3]', -3, [n - 3]),
+                    ('reader[b + 30]', b + 30, [b + 30]),
+                    ('reader[b - 2:b + 5]', slice(b - 2, b + 5), range(b - 2, b + 5)),
+                    ('reader[-5:]', slice(-5, None), range(n - 5, n)),
+                    ('reader[[3, b, b + 25, n - 1]]', [3, b, b + 25, n - 1],
+                     [3, b, b + 25, n - 1]),
+                    ('reader[int64 array]', np.array([0, 63, b + 24, b + 25, n - 2]),
+                     [0, 63, b + 24, b + 25, n - 2]),
+                    ('reader[uint64 array]', np.array([5, b + 40], dtype=np.uint64),
+                     [5, b + 40])):
+                out = must_return(what, lambda: r[idx])
+                same_array(what + ' (recording of %d samples)' % n, out, R.rows(list(rows)),
+                           key='values:huge')
+            out = must_return('reader[rows, [1]]', lambda: r[[b + 1, n - 1], [1]])
+            same_array('reader[[b + 1, n - 1], [1]]', out, R.rows([b + 1, n - 1])[:, [1]],
+                       key='values:huge')
+        finally:
+            for m in getattr(r, '_mmaps', []) or []:
+                m._mmap.close()
+    return {'exprs': 9, 'cross': 0, 'neg': 2, 'arr+cols': 1}
+
+
 def drivers(tier):
     th = tier == 'thorough'
     return [
+        dict(kind='enum', name='huge', exhaustive=False,
+             bound='a sparse flat file of 2**31 + 40 (thorough: 2**32 + 40) samples',
+             cases=lambda: _huge_cases(th)),
         dict(kind='enum', name='large', exhaustive=False,
              bound='requests of more than 2**16 / 2**18 (thorough: 2**20) rows',
              cases=lambda: _large_cases(th)),
@@ -178,6 +223,8 @@ def _check_rewrite(case):
 def check(case):
     if case['mode'] == 'rewrite':
         return _check_rewrite(case)
+    if case['mode'] == 'huge':
+        return _check_huge(case)
     lay = case['lay']
     n = lay['n']
     stats = {'exprs': 0, 'cross': 0, 'neg': 0, 'arr+cols': 0}
@@ -249,6 +296,8 @@ def check(case):
 
 
 def classify(case, info):
+    if case['mode'] == 'huge':
+        return ['huge:%d-samples' % case['n'], 'backend:flat'], True
     lay = case['lay']
     labels = ['backend:' + lay['backend'], 'dtype:' + lay['dtype'], 'mode:' + case['mode']]
     nt = case['mode'] == 'rewrite'
